@@ -19,6 +19,7 @@ ATTRS = {
     'spI': '{{...f1(5)}}', 'spM': '{{...v3.s}}', 'spO': '{{...{{k: f1(6)}}}}', 'id': 'id="s"', 'triv': 't={{v1}}', 'key': 'key={{f1(7)}}', 'ref': 'ref={{v4.r}}', 'on': 'on={{f1(8)}}',
     'dir': 'v-foo={{f1(9)}}', 'dirA': 'v-foo={{[v1.d, f1(10), ["m"]]}}', 'show': 'v-show={{v2.s}}', 'html': 'v-html={{f1(11)}}', 'model': 'v-model={{v1.m}}', 'modelC': 'v-model={{[v1.m, f1(12)]}}',
     'clsA': 'class={{[f1(30), v2.d]}}', 'clkA': 'onClick={{[f1(31), v3.g]}}', 'styA': 'style={{[v4.t, f1(32)]}}',
+    'models': 'v-models={{[[v1.m, "ar"], [v2.n, f1(33)]]}}', 'models1': 'v-models={{[[v3.p]]}}',
     'modelCM': 'v-model={{[v1.m, f1(12), ["x"]]}}', 'modelS': 'v-model={{[v2.n, "arg"]}}', 'slots': 'v-slots={{{{s: f1(13)}}}}', 'arrow': 'cb={{() => f1(14)}}', 'obj': 'o={{{{p: f1(15)}}}}',
 }
 KIDS = {'opt': '{{f1?.(29)}}', 'optm': '{{v1?.k}}', 'newx': '{{new C1(f1(30))}}', 'call': '{{f1(20)}}', 'mem': '{{v1.k}}', 'call2': '{{f1(21)}}', 'text': 'txt', 'el': '<b x={{f1(22)}}>{{v2.y}}</b>', 'comp': '<C1 p={{f1(23)}}>{{v3.z}}</C1>', 'spread': '{{...f1(24)}}',
@@ -437,7 +438,7 @@ def oracle(env):
 def jobs(tier):
     out = []
     plain = ['a', 'b', 'cls1', 'cls2', 'clsA', 'clkA', 'styA', 'sty', 'clk1', 'clk2', 'spI', 'spM', 'spO', 'id', 'triv', 'key', 'ref', 'on', 'arrow', 'obj']
-    dirs = ['dir', 'dirA', 'show', 'html', 'model', 'modelC', 'modelCM', 'modelS', 'slots']
+    dirs = ['dir', 'dirA', 'show', 'html', 'model', 'modelC', 'modelCM', 'modelS', 'models', 'models1', 'slots']
     for h in ('div', 'Foo'):
         for a in plain + dirs:
             out.append({'host': h, 'attrs': [a], 'kids': ['call']})
@@ -454,7 +455,12 @@ def jobs(tier):
             out.append({'host': h, 'attrs': list(tr), 'kids': []})
         for d in dirs:
             for a in ('a', 'spI', 'cls1'):
-                out.append({'host': h if d not in ('model', 'modelC', 'modelCM', 'modelS') or h == 'Foo' else 'input', 'attrs': [a, d, 'b'], 'kids': ['call']})
+                out.append({'host': h if d not in ('model', 'modelC', 'modelCM', 'modelS', 'models', 'models1') or h == 'Foo' else 'input', 'attrs': [a, d, 'b'], 'kids': ['call']})
+    # a directive followed by several attributes (whatever rewrites the attribute list must keep the written order)
+    for d in ('models', 'models1', 'modelC', 'dir', 'show'):
+        for tail in (['a', 'b', 'cls1'], ['spI', 'a', 'b'], ['clk1', 'cls1', 'clk2'], ['a', 'spI', 'b', 'key']):
+            out.append({'host': 'Foo', 'attrs': [d] + tail, 'kids': []})
+            out.append({'host': 'Foo', 'attrs': ['sty', d] + tail[:3], 'kids': ['call']})
     for h in HOSTS:
         for k in KIDS:
             out.append({'host': h, 'attrs': ['a'], 'kids': [k]})
